@@ -14,6 +14,7 @@ From Coq Require Import List NArith ZArith Bool Lia.
 From Oxia.KeyOrder Require Import Model Proofs.
 From Oxia.Db Require Import Types Bytes Escape Keys Kv SortedMap SortedMapProofs KeyFacts Sessions Indexes
      Sequences Notifications Write Read Spec KvProofs NumProofs Proofs_C12 SessionMgr C14_Keys.
+From Oxia.Db Require C16_Gen.
 Import ListNotations.
 
 (* ================================================================ Part 1: the invariant *)
@@ -698,20 +699,70 @@ Proof.
     destruct (scan_callbacks_c14 _ _ _ W H) as [A _]. apply A; [exact Hx|]. intros k e s _ _. apply Hs.
 Qed.
 
+(* ================================================================ sequence puts *)
+(* a put with sequence deltas: the key is generated (C16); since the repair of O-15 the generated key is absent from
+   the batch (C16_Gen.generate_key_fresh), so the put is a creation and the callback sees the right "existing" (nil) *)
+Definition c14_seq_put (p : put_req) : Prop :=
+  p_deltas p <> [] /\ is_internal (p_key p) = false /\ (p_session p <> None -> is_bytes (p_key p)).
+
+Lemma digits_fuel_bytes fuel : forall n acc, is_bytes acc -> is_bytes (digits_fuel fuel 10 dec_digit n acc).
+Proof.
+  induction fuel as [|f IH]; simpl; intros n acc Ha; [exact Ha|].
+  destruct (n =? 0)%N; [exact Ha|]. apply IH. constructor; [|exact Ha].
+  unfold dec_digit. pose proof (N.mod_lt n 10 ltac:(lia)). lia.
+Qed.
+
+Lemma pad20_bytes v : is_bytes (pad20 v).
+Proof.
+  unfold pad20. apply pad_left_forall; [lia|]. unfold dec_of_N, digits_of. destruct (v =? 0)%N.
+  - constructor; [unfold dec_digit; lia|constructor].
+  - apply digits_fuel_bytes. constructor.
+Qed.
+
+Lemma seq_key_bytes P vs : is_bytes P -> is_bytes (C16_Gen.seq_key P vs).
+Proof.
+  intro H. unfold C16_Gen.seq_key, C16_Gen.seq_suffix. apply Forall_app. split; [exact H|].
+  induction vs as [|v tl IH]; simpl; [constructor|].
+  constructor; [unfold DASH; lia|]. apply Forall_app. split; [apply pad20_bytes|exact IH].
+Qed.
+
+Lemma add_event_kv w a b : w_kv (add_event w a b) = w_kv w.
+Proof. reflexivity. Qed.
+
+Lemma apply_put_seq_c14 w p ts :
+  c14_inv (w_kv w) -> c14_seq_put p -> c14_inv (w_kv (fst (apply_put wrapper_callbacks w p ts))).
+Proof.
+  intros I [D [Hi Hb]]. unfold apply_put. destruct (p_deltas p) as [|d0 dtl] eqn:Dl; [contradiction|].
+  destruct (generate_key (w_kv w) p) as [nk| |e] eqn:G; cbn [fst]; try exact I.
+  assert (Dne : p_deltas p <> []) by (rewrite Dl; discriminate).
+  pose proof (C16_Gen.generate_key_fresh _ _ _ (proj1 (proj1 I)) Dne G) as Fresh.
+  pose proof (generate_key_not_internal _ _ _ Hi G) as Hnk.
+  destruct (C16_Gen.generate_key_shape _ _ _ Dne G) as [news [Hg [Enk _]]].
+  assert (U : uv (w_kv w) nk = None) by (unfold uv; rewrite Hnk, Fresh; reflexivity).
+  destruct (finish_put_user w (set_key p nk) ts (Some nk) I) as [w' [r [E [I' _]]]].
+  - exact Hnk.
+  - cbn [p_session set_key p_key]. intro Hs. split.
+    + rewrite Enk. apply seq_key_bytes. apply Hb. exact Hs.
+    + rewrite Enk. apply C16_Gen.seq_key_nonnil. apply Hg.
+  - cbn [p_key set_key] in E. rewrite U in E. rewrite E.
+    destruct (pr_key r); cbn [fst]; [rewrite add_event_kv|]; exact I'.
+Qed.
+
 (* ================================================================ whole requests *)
-Definition c14_put (p : put_req) : Prop := c14_user_put p \/ c14_session_put p.
+Definition c14_put (p : put_req) : Prop := c14_user_put p \/ c14_session_put p \/ c14_seq_put p.
 Definition c14_del (d : del_req) : Prop := is_internal (d_key d) = false \/ exists z, d_key d = session_key z.
 (* the requests C14 quantifies over: clients' puts / deletes / delete-ranges on user keys (any mix of plain,
-   conditional, session and indexed puts; session puts on non-empty byte keys), and the session manager's
-   own puts and deletes of session keys.  Sequence puts are C16's subject (see the note at the end). *)
+   conditional, session, indexed and sequence puts; session puts on non-empty byte keys), and the session
+   manager's own puts and deletes of session keys. *)
 Definition c14_request (req : write_req) : Prop :=
   Forall c14_put (w_puts req) /\ Forall c14_del (w_dels req) /\ Forall range_user (w_ranges req).
 
 Lemma apply_put_c14 w p ts : c14_inv (w_kv w) -> c14_put p -> c14_inv (w_kv (fst (apply_put wrapper_callbacks w p ts))).
 Proof.
-  intros I [Hp|Hp].
+  intros I [Hp|[Hp|Hp]].
   - destruct (apply_put_user w p ts I Hp) as [w' [r [E [I' _]]]]. rewrite E. exact I'.
   - eapply c14_inv_frame; [exact I|]. apply apply_put_session_key; [apply I|exact Hp].
+  - apply apply_put_seq_c14; assumption.
 Qed.
 
 Lemma apply_puts_c14 ps : forall w ts, c14_inv (w_kv w) -> Forall c14_put ps ->
@@ -1439,7 +1490,7 @@ Definition ex14_ops : list c14_op :=
 Example ex14_ok : Forall c14_ok ex14_ops.
 Proof.
   assert (C : forall id v, c14_request (create_request id v)).
-  { intros id v. split; [|split; constructor]. constructor; [|constructor]. right. split; [reflexivity|]. split; [reflexivity|]. exists id. reflexivity. }
+  { intros id v. split; [|split; constructor]. constructor; [|constructor]. right. left. split; [reflexivity|]. split; [reflexivity|]. exists id. reflexivity. }
   unfold ex14_ops.
   repeat (apply Forall_cons;
           [first [apply C | exact I | apply rf_put_ok; [reflexivity|repeat constructor|discriminate]]|]).
@@ -1610,10 +1661,10 @@ Section LeaderInit.
   Qed.
 End LeaderInit.
 
-(* NOTE on sequence puts (outside [c14_request]).  applyPut passes a nil existing entry to the callbacks for a put with
-   sequence deltas, so when the generated key already holds an ephemeral record (reachable: a literal "p-1" makes
-   FindLower return the same last key twice) the old owner's shadow key is never deleted: a stale shadow, and at that
-   session's end the record is deleted although not owned.  Reported to C16, which owns the sequence path. *)
+(* NOTE on sequence puts.  They are inside [c14_request] since the repair of O-15 (C16): the generated key is absent
+   from the batch, so passing a nil existing entry to the callbacks is right.  Before the repair a sequence put could land
+   on an existing ephemeral record without its shadow being deleted (stale shadow; the record was then deleted at that
+   session's end although not owned). *)
 
 (* In the model the end of a session is ONE request, i.e. one log entry applied atomically by every replica: step 2 of
    session.delete() is a single ProcessWrite of [cleanup_request] (all listed keys, the session key and the shadow
@@ -1632,3 +1683,27 @@ Proof.
   split; [reflexivity|]. split; [reflexivity|]. split; [|reflexivity].
   cbn [cleanup_request w_dels]. apply in_or_app. right. left. reflexivity.
 Qed.
+
+(* non-vacuity for sequence puts: a plain record sits exactly at the prefix, the ephemeral sequence put registers the
+   GENERATED key in the session's index, and the session's end removes that record only *)
+Definition ex14_seq_put (sess : option Z) : write_req :=
+  mkWrite [mkPut [115%N] [118%N] None sess None (Some [112%N]) [1%N] []] [] [].
+Definition ex14_seq_ops : list c14_op :=
+  [XWrite (create_request 0 [1%N]) 0 10; XWrite (rf_put [115%N] None) 1 11; XWrite (ex14_seq_put (Some 0%Z)) 2 12].
+Definition ex14_seq_key : key := C16_Gen.seq_key [115%N] [1%N].
+
+Example ex14_seq_ok : Forall c14_ok (ex14_seq_ops ++ [XClose 0 3 13]).
+Proof.
+  assert (C : forall id v, c14_request (create_request id v)).
+  { intros id v. split; [|split; constructor]. constructor; [|constructor]. right. left. split; [reflexivity|]. split; [reflexivity|]. exists id. reflexivity. }
+  repeat (apply Forall_cons; [first [apply C | exact I | apply rf_put_ok; [reflexivity|repeat constructor|discriminate] | idtac]|]); [|apply Forall_nil].
+  split; [|split; constructor]. constructor; [|constructor]. right. right.
+  split; [discriminate|]. split; [reflexivity|]. intros _. repeat constructor.
+Qed.
+
+Example ex14_seq_state :
+  let m := st_kv (c14_run rf_cfg ex14_seq_ops) in
+  let m' := st_kv (c14_run rf_cfg (ex14_seq_ops ++ [XClose 0 3 13])) in
+  owner m ex14_seq_key = Some 0%Z /\ kv_get m (shadow_key 0 ex14_seq_key) <> None /\ kv_get m (shadow_key 0 [115%N]) = None /\
+  uv m' ex14_seq_key = None /\ uv m' [115%N] <> None.
+Proof. vm_compute. repeat split; discriminate. Qed.
